@@ -26,6 +26,7 @@ CONSTANTS MaxBlocks,      \* 1..3
           CfiLayouts,     \* subset of {"none","proc_all","proc_each","proc_rs"}
           Isa,            \* "x64" | "ia32" | "arm64": instruction sizes of the rendered module
           WithScopes,     \* BOOLEAN: generate register_insert(AllBlocksScope(ENTRY), ..) requests
+          WholeOnly,      \* BOOLEAN: requests are whole-block deletions (and insertions at offset 0) only
           Leads,          \* set of numbers of uncovered filler bytes in front of the first block
           DropFnTables,   \* BOOLEAN subset: function-less modules may lack the three function tables
           ExtraData,      \* BOOLEAN subset: add an untouched .data section whose word refers to the target symbol
@@ -306,6 +307,12 @@ Candidates(sh) ==
             B == ShapeBoundaries(b)
             code == b.kind = "code"
         IN
+          IF WholeOnly
+          THEN {[op |-> "del", blk |-> i, off |-> 0, len |-> ShapeSize(b), proxy |-> px, pk |-> ""] :
+                   px \in (IF WithProxyDel THEN {TRUE, FALSE} ELSE {FALSE})}
+               \cup {[op |-> "ins", blk |-> i, off |-> 0, len |-> 0, proxy |-> FALSE, pk |-> k] :
+                        k \in (IF code THEN PatchKinds \cap {"plain2"} ELSE {})}
+          ELSE
           {[op |-> "ins", blk |-> i, off |-> o, len |-> 0, proxy |-> FALSE, pk |-> k] :
               o \in B, k \in (IF code THEN PatchKinds \ ({"bytes"} \cup (IF Len(sh.sections) >= 2 THEN {} ELSE {"datasec"}))
                                 ELSE PatchKinds \cap {"bytes"})}
